@@ -8,6 +8,7 @@ import (
 	"math/big"
 	"runtime"
 	"testing"
+	"time"
 
 	"github.com/bytemare/secp256k1"
 	"github.com/bytemare/secp256k1/verifharness/gen"
@@ -200,6 +201,8 @@ func runC10(c caseC10, o *gen.Obs) error {
 		case "e.copymut": // mutate a copy: the source must not change
 			cp := st.E[x].Copy()
 			cp.Double().Add(secp256k1.Base()).Negate()
+		case "sleep": // fixed cases only: time passes between two steps (expiring caches, periodic background work)
+			time.Sleep(time.Duration(min(a.U, 1500)) * time.Millisecond)
 		case "gc":
 			if r == 0 { // (a quarter of the gc actions: a collection costs about a millisecond)
 				runtime.GC() // pools and caches are emptied; nothing observable may change
@@ -433,6 +436,9 @@ var c10 = gen.Register(&gen.Check[caseC10]{
 	},
 	Fixed: func() []caseC10 {
 		return []caseC10{
+			{Acts: []act{{Op: "e.base", R: 0}, {Op: "e.double", R: 0}, {Op: "e.decode", R: 1, A: 0}, {Op: "s.setu64", R: 0, U: 77}, {Op: "e.mul", R: 1, A: 0}, {Op: "s.h2s", R: 1, Data: "6162"},
+				{Op: "sleep", U: 1100}, {Op: "e.add", R: 1, A: 0}, {Op: "e.mul", R: 1, A: 0}, {Op: "s.mul", R: 0, A: 1}, {Op: "e.decode", R: 2, A: 1}, {Op: "s.h2s", R: 2, Data: "6162"}, {Op: "e.h2g", R: 3, Data: "6162"},
+				{Op: "sleep", U: 300}, {Op: "e.sub", R: 2, A: 0}, {Op: "s.invert", R: 0}, {Op: "e.mul", R: 2, A: 0}}},
 			{Acts: []act{{Op: "e.base", R: 0}, {Op: "e.sub", R: 0, A: 0}, {Op: "e.base", R: 1}, {Op: "e.add", R: 1, A: 0}, {Op: "e.add", R: 0, A: 1}, {Op: "e.negate", R: 0}, {Op: "e.add", R: 0, A: 1}}},
 			{Acts: []act{{Op: "e.base", R: 0}, {Op: "e.copy", R: 1, A: 0}, {Op: "e.double", R: 1}, {Op: "e.set", R: 2, A: 1}, {Op: "e.sub", R: 2, A: 0}, {Op: "e.sub", R: 1, A: 1}, {Op: "e.add", R: 2, A: 1}}},
 			{Acts: []act{{Op: "s.minusone", R: 0}, {Op: "e.base", R: 0}, {Op: "e.mul", R: 0, A: 0}, {Op: "e.base", R: 1}, {Op: "e.add", R: 1, A: 0}, {Op: "s.mul", R: 0, A: 0}, {Op: "s.add", R: 0, A: 0}, {Op: "s.cselect", R: 0, A: 0, B: 1, U: 2}}},
